@@ -166,7 +166,9 @@ def generate(seed, tier):
         prior = {"text": "\r".join("".join(row) for row in prior_rows) + rng.choice(["", "\r", "\n"]),
                  "widths": prior_widths, "setting": swarm.choice(["any", "any", "cr", "lf"]),
                  "stop_after": rng.randint(0, len(prior_rows)), "close": swarm.random() < 0.5,
-                 "source": swarm.choice(["stringio", "stream", "path"])}
+                 "source": swarm.choice(["stringio", "stream", "path"]),
+                 # the earlier data lived at the very path the judged data are stored at a moment later
+                 "same_path": swarm.random() < 0.5}
     return {"io": simfs.IoConfig.draw(swarm), "text": text, "mutation": mutation, "widths": widths, "setting": setting,
             "source": source, "prior": prior, "kind": kind}
 
@@ -320,7 +322,7 @@ def execute(scenario):
     prior_class = None
     with simfs.Seams(fs):
         if prior:
-            prior_source = _open_source(fs, prior["source"], prior["text"], "prior.txt")
+            prior_source = _open_source(fs, prior["source"], prior["text"], "data.txt" if prior.get("same_path") else "prior.txt")
             fields = [("p%d" % index, width) for index, width in enumerate(prior["widths"])]
             generator = rowio.fixed_rows(prior_source, "utf-8", fields, SETTINGS[prior["setting"]])
             taken = []
